@@ -42,6 +42,7 @@ type Ctx struct {
 	inconclusive map[string]int
 	findings     []Finding
 	printed      int
+	perKey       map[string]int
 }
 
 type violation struct {
@@ -164,16 +165,16 @@ func (c *Ctx) Note(name string, v interface{}) {
 	c.mu.Unlock()
 }
 
-// Sample keeps a few actual cases for the evidence file (first 4, then sparse picks up to 8).
+// Sample keeps a few actual cases for the evidence file (first 6, then sparse picks up to 10).
 func (c *Ctx) Sample(v interface{}) {
 	c.mu.Lock()
 	defer c.mu.Unlock()
 	c.sampleSeen++
-	if len(c.samples) < 4 {
+	if len(c.samples) < 6 {
 		c.samples = append(c.samples, v)
 		return
 	}
-	if len(c.samples) < 8 && c.sampleSeen%97 == 0 {
+	if len(c.samples) < 10 && c.sampleSeen%97 == 0 {
 		c.samples = append(c.samples, v)
 	}
 }
@@ -209,12 +210,11 @@ func (c *Ctx) Violation(key, what string, replay interface{}) {
 	c.mu.Lock()
 	// replay files are written for the first violations only (and the first of each new key):
 	// a systematically broken tree must not turn the check into a disk-filling exercise.
-	perKey := 0
-	for _, v := range c.violations {
-		if v.Key == key {
-			perKey++
-		}
+	if c.perKey == nil {
+		c.perKey = map[string]int{}
 	}
+	perKey := c.perKey[key]
+	c.perKey[key]++
 	write := len(c.violations) < 40 || perKey == 0
 	c.mu.Unlock()
 	path := "(not written: too many violations)"
